@@ -280,6 +280,8 @@ where
         cases: args.cases,
         failure_persistence: None,
         max_shrink_iters: def.shrink_iters,
+        // shrinking is bounded in time as well: some failing cases cost seconds (watchdogs)
+        max_shrink_time: 90_000,
         max_global_rejects: 1_000_000,
         ..Config::default()
     };
